@@ -333,10 +333,10 @@ func genChainWalk(r *rand.Rand, n int) []Step {
 			st = append(st, Step{"a": "perpClose", "u": u, "id": float64(1 + r.Intn(nextPerp)), "frac": pick(r, "third", "all", "allbut1", "one")})
 		case 14:
 			reqs := []any{[]any{pick(r, users...), float64(1 + r.Intn(nextPerp))}}
-			st = append(st, Step{"a": "perpClosePositions", "u": "bot", pick(r, "liq", "sl", "tp"): reqs})
+			st = append(st, closeLists(r, "perpClosePositions", reqs, "liq", "sl", "tp"))
 		case 15:
 			reqs := []any{[]any{pick(r, users...), float64(1 + r.Intn(nextLev))}}
-			st = append(st, Step{"a": "levClosePositions", "u": "bot", pick(r, "liq", "sl"): reqs})
+			st = append(st, closeLists(r, "levClosePositions", reqs, "liq", "sl"))
 		case 16:
 			st = append(st, Step{"a": "claim", "u": u, "pools": []any{float64(1), float64(2), float64(32767)}})
 		case 17:
